@@ -14,10 +14,11 @@ import TypelibModel.Drv.Routine
 import TypelibModel.Drv.Fields
 import TypelibModel.Drv.Naming
 import TypelibModel.Drv.Hints
+import TypelibModel.Drv.ClassDispatch
 open Lean Typelib.Drv
 
 def handlers : List (St → String → Json → Option (Except String (St × Json))) :=
-  [handleCore, handleBinding, handleFuture, handleCtx, handleSlotted, handleGraph, handleInspect, handleCache, handleRoutine, handleFields, handleNaming, handleHints]
+  [handleCore, handleBinding, handleFuture, handleCtx, handleSlotted, handleGraph, handleInspect, handleCache, handleRoutine, handleFields, handleNaming, handleHints, handleClassDispatch]
 
 def step (st : St) (line : String) : St × String :=
   match Json.parse line with
